@@ -6,6 +6,7 @@ The enumeration is deterministic (no randomness): the scope is enumerated comple
 import itertools
 
 from . import build as B
+from . import treejson as TJ
 from .build import ABSENT, BLANK
 from .treejson import E
 
@@ -288,3 +289,91 @@ def all_cases(tier='quick'):
         yield from item_cases(ms=(0, 1, 2, 3, 4, 5), max_src=3, positions=(0, 1, 2),
                               big_patterns=('plain', 'lead', 'between', 'trail', 'every'))
     yield from other_cases()
+
+
+def odd_cases():
+    """G-odd: unusual but legal shapes — repeated tags, attributes, tails, several element_source tags,
+    duplicate IDs, elements without IDs, nested look-alikes — for every merge property."""
+    def with_attrs(t, **a):
+        t = list(t)
+        t[1] = [[k, v] for k, v in a.items()]
+        return t
+
+    def with_tail(t, tail):
+        t = list(t)
+        t[3] = tail
+        return t
+
+    st = lambda sid, m=2: mk_story(sid, m, 'every')
+    stories = [with_attrs(st('A'), num='1'), with_tail(st('B'), '\n   '), st('C'), st('D')]
+    ro = B.ro_doc(stories, pattern='every', ed_start='2021-03-04T09:00:00',
+                  extra=[B.timing_md(duration='1', schema='s1'), B.timing_md(duration='2', schema='s2'), E('roTrigger', text='t')])
+    dup = B.ro_doc([st('A'), st('B'), st('A'), st('C')], pattern='between')       # duplicate story ID
+    noid = B.ro_doc([st('A'), B.story('B', [B.item('I1'), E('item', E('itemSlug', text='no id'))]), st('C')])
+    out = []
+
+    def case(cls, label, msg, r=ro):
+        out.append({'family': 'odd', 'cls': cls, 'label': f'odd|{cls}|{label}', 'ro': r, 'msg': msg})
+
+    X, Y = new_story('X'), new_story('Y')
+    # several element_source tags: only the first is used by INSERT / REPLACE / SWAP / item MOVE
+    case('EAStoryInsert', 'two sources', B.ea('INSERT', {'storyID': 'C'}, [[X], [Y]]))
+    case('EAStoryReplace', 'two sources', B.ea('REPLACE', {'storyID': 'B'}, [[X], [Y]]))
+    case('EAStorySwap', 'ids split over two sources', B.ea('SWAP', ABSENT, [B.ids('storyID', ['A']), B.ids('storyID', ['C'])]))
+    case('EAStorySwap', 'two full sources', B.ea('SWAP', ABSENT, [B.ids('storyID', ['A', 'D']), B.ids('storyID', ['B', 'C'])]))
+    case('EAItemMove', 'two sources', B.ea('MOVE', {'storyID': 'B', 'itemID': 'I1'}, [B.ids('itemID', ['I2']), B.ids('itemID', ['I1'])]))
+    case('EAItemInsert', 'two sources', B.ea('INSERT', {'storyID': 'B', 'itemID': 'I2'}, [[new_item('N1')], [new_item('N2')]]))
+    case('EAStoryDelete', 'three sources', B.ea('DELETE', ABSENT, [B.ids('storyID', ['D']), B.ids('storyID', ['A', 'ZZ']), B.ids('storyID', ['B'])]))
+    case('EAStoryMove', 'three sources', B.ea('MOVE', {'storyID': 'A'}, [B.ids('storyID', ['D']), B.ids('storyID', ['C']), B.ids('storyID', ['B'])]))
+    # two element_target tags, target with extra children
+    m = B.ea('INSERT', {'storyID': 'C'}, [[X]])
+    TJ_ea = [c for c in m[4] if c[0] == 'roElementAction'][0]
+    TJ_ea[4].insert(1, E('element_target', E('storyID', text='A')))
+    case('EAStoryInsert', 'two targets', m)
+    # repeated reference tags in the plain messages
+    m = B.story_insert('C', [X]); m[4][-1][4].insert(1, E('storyID', text='A'))
+    case('StoryInsert', 'two storyIDs (first wins)', m)
+    m = B.story_replace('B', [X]); m[4][-1][4].append(E('storyID', text='D'))
+    case('StoryReplace', 'storyID repeated after the payload', m)
+    case('StoryMove', 'three storyIDs', B.story_move(['D', 'B', 'A']))
+    m = B.item_insert('B', 'I2', [new_item('N1')]); m[4][-1][4].insert(1, E('storyID', text='C'))
+    case('ItemInsert', 'two storyIDs', m)
+    # carried elements: without ID, with attributes and tails, nested look-alikes
+    case('StoryAppend', 'story without ID', B.story_append([B.story(ABSENT, [B.item('Q1')]), X]))
+    case('StoryInsert', 'story with blank ID', B.story_insert('B', [B.story(BLANK, []), X]))
+    case('StoryInsert', 'attributes and tails', B.story_insert('B', [with_tail(with_attrs(new_story('X'), a='1', b='"q"'), 'tail text'), Y]))
+    case('StoryReplace', 'carries a story nested in a story', B.story_replace('C', [B.story('X', [E('story', E('storyID', text='A'))])]))
+    case('ItemInsert', 'item without ID', B.item_insert('C', 'I1', [E('item', E('itemSlug', text='s')), new_item('N2')]))
+    case('ItemReplace', 'same ID as the replaced item', B.item_replace('C', 'I2', [new_item('I2'), new_item('I2')]))
+    case('StoryReplace', 'same ID as the replaced story', B.story_replace('C', [new_story('C')]))
+    case('StoryInsert', 'same new ID twice', B.story_insert('C', [new_story('X'), new_story('X')]))
+    # roStorySend shapes
+    case('StorySend', 'two storyBody elements', B.story_send('B', [B.item('S1')], post=[E('storyBody', B.p('second body'))]))
+    case('StorySend', 'empty storyBody', B.story_send('C', []))
+    case('StorySend', 'body with nested storyItem', B.story_send('C', [E('p', E('storyItem', E('itemID', text='deep')), text='para'), B.item('S1')]))
+    case('StorySend', 'storyID after the body', B.story_send(ABSENT, [B.item('S1')], slug=False, post=[E('storyID', text='D')]))
+    case('StorySend', 'attributes and tail on the message element', (lambda d: (d[4][-1].__setitem__(1, [['x', 'y']]), d[4][-1].__setitem__(3, ' tail '), d)[2])(B.story_send('A', [B.p('x')])))
+    # duplicate IDs in the running order
+    case('StoryDelete', 'duplicate story ID in RO', B.story_delete(['A', 'A', 'A']), dup)
+    case('StoryMove', 'move duplicate ID', B.story_move(['A', 'C']), dup)
+    case('EAStorySwap', 'swap duplicate ID with itself', B.ea('SWAP', ABSENT, [B.ids('storyID', ['A', 'A'])]), dup)
+    case('StoryInsert', 'insert into RO with duplicates', B.story_insert('A', [X, new_story('A')]), dup)
+    case('ItemDelete', 'item delete in duplicate story', B.item_delete('A', ['I1', 'I2']), dup)
+    # items without IDs inside the addressed story (find_child dereferences itemID)
+    case('ItemDelete', 'addressed story has an item without ID', B.item_delete('B', ['I1']), noid)
+    case('ItemInsert', 'end of a story with an ID-less item', B.item_insert('B', BLANK, [new_item('N')]), noid)
+    case('ItemDelete', 'ID-less item before the match', B.item_delete('B', ['ZZ']), noid)
+    # metadata replace shapes
+    case('MetaDataReplace', 'schema s2 only', B.metadata_replace([B.timing_md(duration='9', schema='s2')]))
+    case('MetaDataReplace', 'unknown schema + known', B.metadata_replace([B.timing_md(duration='7', schema='s3'), B.timing_md(duration='8', schema='s1')]))
+    case('MetaDataReplace', 'block without mosSchema', B.metadata_replace([E('mosExternalMetadata', E('mosPayload'))]))
+    case('MetaDataReplace', 'carries a story', B.metadata_replace([E('roSlug', text='x'), new_story('Q')]))
+    case('MetaDataReplace', 'same tag three times', B.metadata_replace([E('roTrigger', text='1'), E('roTrigger', text='2'), E('roTrigger', text='3')]))
+    # roReplace / roDelete shapes
+    case('RunningOrderReplace', 'with attributes and tail', (lambda d: (d[4][-1].__setitem__(1, [['v', '1']]), d[4][-1].__setitem__(3, '\n'), d)[2])(B.ro_replace([X], pattern='none')))
+    case('RunningOrderEnd', 'roDelete with payload and tail', (lambda d: (d[4][-1][4].append(E('note', text='bye', tail=' t ')), d[4][-1].__setitem__(3, '\n '), d)[2])(B.ro_delete()))
+    # multi-ID lists of length 4 and 5
+    case('EAStoryMove', 'four sources reversed', B.ea('MOVE', ABSENT, [B.ids('storyID', ['D', 'C', 'B', 'A'])]))
+    case('StoryDelete', 'five ids mixed', B.story_delete(['B', 'ZZ', 'D', BLANK, 'B']))
+    case('ItemMoveMultiple', 'all items before first', B.item_move_multiple('A', ['I2', 'I1', 'I1']))
+    return out
